@@ -32,6 +32,8 @@ def build(tier="quick", seed=0):
     call_sites(b)
     forwarding(b)
     layered_sums(b)
+    fixed_parameters(b)
+    b.replayer("*::ensures:love_numbers_current*", _replay_fixed_q)
     b.replayer("*::forwards", _replay_stale)
     b.replayer("*::ensures:spin_follows_orbit*", _replay_c13)
     b.replayer("*#global_sums*", _replay_c13)
@@ -213,6 +215,62 @@ def call_sites(b):
     ground(b, f"{FWT}::TidalWorld.orbit_spin_changed::forwards", f"{FWT}::TidalWorld.orbit_spin_changed", "the world forwards its four change flags to the tides object unchanged", ok)
 
 
+def fixed_parameters(b):
+    """GlobalApproxTides: after set_fixed_q / set_fixed_dt the stored CPL / CTL Love numbers that collapse_modes reads are the ones of the CURRENT
+    fixed parameters (ghost model: the helper functions are uninterpreted functions of their arguments).  Coherence is checked at the moment
+    collapse_modes is called and at exit."""
+    FG = "TidalPy/tides/methods/global_approx.py"
+    base = ClassModel("TidesBase", FT)
+    cls = ClassModel("GlobalApproxTides", FG, bases=[base])
+    CPL, CTL, GET = sp.Function("CPL_love"), sp.Function("CTL_love"), sp.Function("ctl_inputs_of")
+    FRQ, k2 = R("unique_tidal_frequencies_obj"), R("fixed_k2")
+    q0, q1, dt0, dt1, METH = R("q_old"), R("q_new"), R("dt_old"), R("dt_new"), R("ctl_method_obj")
+    for setter, arg in (("set_fixed_q", "fixed_q"), ("set_fixed_dt", "fixed_dt")):
+        for ctl in (False, True):
+            c, node = cls.lookup("methods", setter)
+            if node is None:
+                b.subset_exits.append(f"{FG}::GlobalApproxTides.{setter}: not found")
+                continue
+            mfn = MethodFn(c, node)
+            b.functions[mfn.key] = mfn.info()
+            seen = []
+            o = Obj(cls, _use_ctl=ctl, _fixed_q=q0, _fixed_dt=dt0, _fixed_k2=k2, _unique_tidal_frequencies=FRQ, _ctl_calc_method=METH,
+                    _cpl_complex_love_by_unique_freq=CPL(FRQ, k2, q0), _ctl_complex_love_by_unique_freq=CTL(FRQ, k2, METH, GET(q0, dt0)),
+                    _tidal_terms_by_frequency=R("terms_obj"), _need_to_collapse_modes=False, _new_tidal_frequencies=False)
+            o.setattr("_ctl_calc_input_getter", lambda ex, node, *a_: GET(sp.sympify(o._attrs["_fixed_q"]), sp.sympify(o._attrs["_fixed_dt"])))
+
+            def collapse(self_, *a_, **k_):
+                seen.append((self_._attrs.get("_cpl_complex_love_by_unique_freq"), self_._attrs.get("_ctl_complex_love_by_unique_freq")))
+                return None
+            genv = dict(cpl_neg_imk_helper_func=lambda ex, node, f_, k_, q_: CPL(sp.sympify(f_), sp.sympify(k_), sp.sympify(q_)),
+                        ctl_neg_imk_helper_func=lambda ex, node, f_, k_, m_, inp: CTL(sp.sympify(f_), sp.sympify(k_), sp.sympify(m_), sp.sympify(inp)))
+            ex = Exec(mfn, globals_env=genv, contracts={".collapse_modes": Contract(".collapse_modes", None, None, result=collapse)}, opts=dict(definedness=False))
+            new = q1 if arg == "fixed_q" else dt1
+            try:
+                paths = ex.run({"self": o, arg: new, "run_updates": True})
+            except SymExError as e:
+                b.subset_exits.append(f"{mfn.key} [ctl={int(ctl)}]: {e}")
+                continue
+            tag = f"[use_ctl={int(ctl)}]"
+            if len(paths) != 1 or paths[0].outcome != "return":
+                b.subset_exits.append(f"{mfn.key} {tag}: {[p.outcome for p in paths]}")
+                continue
+            qn = q1 if arg == "fixed_q" else q0
+            dn = dt1 if arg == "fixed_dt" else dt0
+            want = CTL(FRQ, k2, METH, GET(qn, dn)) if ctl else CPL(FRQ, k2, qn)
+            fld = "_ctl_complex_love_by_unique_freq" if ctl else "_cpl_complex_love_by_unique_freq"
+            at_call = [(x[1] if ctl else x[0]) for x in seen]
+            ok_call = bool(seen) and all(v == want for v in at_call)
+            ok_exit = o._attrs.get(fld) == want
+            relevant = (ctl) or (arg == "fixed_q")          # fixed_dt does not enter the CPL law
+            if not relevant:
+                ok_call = ok_exit = True
+            ground(b, f"{mfn.key}::ensures:love_numbers_current{tag}", mfn.key,
+                   f"after {setter} the {'CTL' if ctl else 'CPL'} Love numbers that collapse_modes reads are those of the CURRENT fixed parameters (recomputed before the modes are collapsed)",
+                   ok_call and ok_exit, detail=f"collapse_modes called {len(seen)} time(s); love at call {str(at_call)[:120]}; wanted {want}",
+                   refuted_model=None if (ok_call and ok_exit) else dict(stored=str(o._attrs.get(fld)), wanted=str(want)))
+
+
 def layered_sums(b):
     """LayeredTides.collapse_modes: the global heating / potential derivatives are the sums over the tidally active layers, for ARRAY-valued layer
     results as well, and forming them leaves every per-layer result (the objects also stored in tidal_heating_by_layer and exposed by the layers)
@@ -294,16 +352,17 @@ _star = build_world("55cnc"); _base = build_world("earth_simple")
 _cfg = {"force_spin_sync": False, "type": "simple_tidal", "mass": 5.972e24, "slices": 40,
         "tides": {"model": "global_approx", "fixed_q": 125.0, "use_ctl": False, "eccentricity_truncation_lvl": 4, "max_tidal_order_l": 2, "obliquity_tides_on": True}}
 def fresh(state):
-    w = build_from_world(_base, new_config=_cfg)
+    c_ = copy.deepcopy(_cfg); c_["tides"]["fixed_q"] = state.get("q", 125.0)
+    w = build_from_world(_base, new_config=c_)
     o = PhysicsOrbit(_star, tidal_host=_star, tidal_bodies=w)
     w.set_state(orbital_period=state["P"], eccentricity=state["e"], obliquity=state["I"], spin_period=state["Ps"])
     return w
 def obs(w):
     return [float(np.asarray(x).ravel()[0]) if x is not None else None for x in (w.tidal_heating_global, w.dUdM, w.dUdw, w.dUdO)]
 ops = {"e": lambda w, v: w.set_state(eccentricity=v), "I": lambda w, v: w.set_state(obliquity=v), "Ps": lambda w, v: w.set_state(spin_period=v),
-       "P": lambda w, v: w.set_state(orbital_period=v), "e_orbit": lambda w, v: w.orbit.set_eccentricity(w, v)}
-vals = {"e": [0.05, 0.2], "I": [0.1, 0.4], "Ps": [12.0, 25.0], "P": [30.0, 50.0], "e_orbit": [0.1, 0.3]}
-base = {"P": 30.0, "e": 0.05, "I": 0.1, "Ps": 12.0}
+       "P": lambda w, v: w.set_state(orbital_period=v), "e_orbit": lambda w, v: w.orbit.set_eccentricity(w, v), "q": lambda w, v: w.tides.set_fixed_q(v)}
+vals = {"e": [0.05, 0.2], "I": [0.1, 0.4], "Ps": [12.0, 25.0], "P": [30.0, 50.0], "e_orbit": [0.1, 0.3], "q": [50.0, 200.0]}
+base = {"P": 30.0, "e": 0.05, "I": 0.1, "Ps": 12.0, "q": 125.0}
 bad = []; n = 0
 for L in range(1, cfg["maxlen"] + 1):
     for seq in itertools.product(sorted(ops), repeat=L):
@@ -332,7 +391,7 @@ def bounded_histories(b, tier, seed):
     out = native.run(dict(code=_HIST, args=dict(maxlen=maxlen)), timeout=1800)
     res = out.get("result") if isinstance(out, dict) else None
     b.bounded.append(dict(name="history independence of a layered world in an orbit (native run): after every history of setter calls the derived quantities equal those of a freshly built world in the same state",
-                          bound=f"all histories of length <= {maxlen} over 5 setters (e, obliquity, spin period, orbital period via the world; e via the orbit), Io-like layered world",
+                          bound=f"all histories of length <= {maxlen} over 6 setters (e, obliquity, spin period, orbital period via the world; e via the orbit; fixed-Q via the tides object), Earth-like CPL world",
                           result=res if res is not None else out, counted_as_proved=False))
     # a counterexample found by the bounded run is a genuine failing history: reported (the stand-in is never counted as proof, its refutations are)
     if res is not None:
@@ -430,4 +489,35 @@ def _replay_c13(ob, res):
     hits = [f for f in out["result"]["failures"] if f[0] == fam]
     rec["confirmed"] = bool(hits)
     rec["detail"] = hits[:3]
+    return rec
+
+
+def _replay_fixed_q(ob, res):
+    from tpv import native
+    code = r'''
+import numpy as np, logging, warnings
+warnings.filterwarnings('ignore'); logging.disable(logging.CRITICAL)
+from TidalPy.structures import build_world, build_from_world
+from TidalPy.structures.orbit import PhysicsOrbit
+_star = build_world("55cnc"); _base = build_world("earth_simple")
+def mk(q, ctl, dt):
+    cfg = {"force_spin_sync": False, "type": "simple_tidal", "mass": 5.972e24, "slices": 40,
+           "tides": {"model": "global_approx", "fixed_q": q, "fixed_dt": dt, "use_ctl": ctl, "eccentricity_truncation_lvl": 4, "max_tidal_order_l": 2, "obliquity_tides_on": True}}
+    w = build_from_world(_base, new_config=cfg)
+    o = PhysicsOrbit(_star, tidal_host=_star, tidal_bodies=w)
+    w.set_state(orbital_period=30.0, eccentricity=0.1, obliquity=0.1, spin_period=12.0)
+    return w
+H = lambda w: float(np.asarray(w.tidal_heating_global).ravel()[0])
+out = {}
+w = mk(125.0, False, 1.0); w.tides.set_fixed_q(25.0); out["cpl"] = [H(w), H(mk(25.0, False, 1.0))]
+w = mk(125.0, True, 1.0); w.tides.set_fixed_dt(5.0); out["ctl"] = [H(w), H(mk(125.0, True, 5.0))]
+result = out
+'''
+    out = native.run(dict(code=code), timeout=900)
+    rec = dict(replayed=True, native=out, what="set_fixed_q(125 -> 25) on a CPL world and set_fixed_dt(1 -> 5) on a CTL world vs freshly built worlds with the new parameter")
+    try:
+        v = out["result"]
+        rec["confirmed"] = any(abs(a_ - b_) > 1e-9 * abs(b_) for a_, b_ in v.values())
+    except Exception:
+        rec["confirmed"] = False
     return rec
